@@ -1303,6 +1303,13 @@ class StmtMixin(object):
         f = _forall_pat([r], body, ln[r], at[r], ln0[r])
         return st, self.mk_bool(f)
 
+    def spec_allocated(self, node, st, acc):
+        """allocated(x): x is an object that exists in the current state (its id is below the allocation pointer);
+        concrete reads get this fact automatically, a quantified clause has to state it."""
+        st, v = self.eval(node.args[0], st, acc)
+        v = self.box(st, v)
+        return st, self.mk_bool(z3.And(self.u.is_R(v.z), self.u.r(v.z) > 0, self.u.r(v.z) < st.alloc))
+
     def spec_preexisting(self, node, st, acc):
         """preexisting(x): x is an object that was allocated before the function under verification was entered."""
         st, v = self.eval(node.args[0], st, acc)
